@@ -83,7 +83,7 @@ class C06(Prop):
                     exp_out.setdefault(g, []).append("added")     # the standalone JSON call (its file is not the shared one)
                     continue
                 per_g[g] = per_g.get(g, 0) + 1
-                header = unhx(tid).replace(b"#", b"%d" % per_g[g])[1:-1]
+                header = unhx(tid)[1:-1]
                 body = unhx(snap)
                 if header not in init:
                     oc = "added" if cr == "1" else "failed:notfound"
